@@ -1,7 +1,7 @@
 ------------------------------ MODULE MC_Blind ------------------------------
 EXTENDS Blind
 CONSTANT Tier
-I(a, v, c, abf, vbf) == [asset |-> a, v |-> v, abf |-> abf, vbf |-> vbf, conf |-> c]
+I(a, v, c, abf, vbf) == [asset |-> a, v |-> v, abf |-> abf, vbf |-> vbf, mode |-> c]
 O(a, v) == [asset |-> a, v |-> v, marked |-> FALSE, want |-> "full", fee |-> FALSE, script |-> "std", mode |-> "expl", abf |-> 0, vbf |-> 0, rp |-> NoProof, sp |-> NoProof]
 Fee(a, v) == [O(a, v) EXCEPT !.fee = TRUE, !.script = "unspendable"]
 Burn(a) == [O(a, 0) EXCEPT !.script = "unspendable"]          \* explicit zero on OP_RETURN
@@ -10,8 +10,8 @@ NoIss == [on |-> 0, v |-> 0, vc |-> FALSE, vb |-> 0, tv |-> 0, tc |-> FALSE, tb 
 \* issuance shapes: amount only, amount and tokens, tokens only (Null amount), and the (partially) blinded forms
 IssSet == { NoIss, Iss(2, FALSE, 0, 0, FALSE, 0), Iss(2, FALSE, 0, 1, FALSE, 0), Iss(0, FALSE, 0, 1, FALSE, 0),
             Iss(2, TRUE, 3, 1, TRUE, 1), Iss(2, TRUE, 2, 1, FALSE, 0), Iss(2, FALSE, 0, 1, TRUE, 4) }
-InsSets == { << I("A", 3, TRUE, 2, 1) >>, << I("A", 3, FALSE, 0, 0) >>,
-             << I("A", 2, TRUE, 1, 4), I("B", 1, TRUE, 3, 2) >>, << I("A", 2, TRUE, 4, 0), I("A", 2, FALSE, 0, 0) >> }
+InsSets == { << I("A", 3, "full", 2, 1) >>, << I("A", 3, "expl", 0, 0) >>,
+             << I("A", 2, "full", 1, 4), I("B", 1, "full", 3, 2) >>, << I("A", 2, "full", 4, 0), I("A", 2, "expl", 0, 0) >> }
 TotalOf(ins, a) == SumF(LAMBDA i : ValIf(i, a), ins, 1)
 \* output multisets balancing the inputs (fee 1 of asset A), as sequences in a base order
 BaseOuts(ins, iss) ==
@@ -30,10 +30,12 @@ Build(InsS, IssS) ==
               : ins \in InsS, iss \in IssS }
 NMarked(sk) == Cardinality({ j \in DOMAIN sk.outs : sk.outs[j].marked })
 PlainIss == { NoIss, Iss(2, FALSE, 0, 0, FALSE, 0) }
-SmallIns == { << I("A", 3, TRUE, 2, 1) >>, << I("A", 3, FALSE, 0, 0) >> }
+SmallIns == { << I("A", 3, "full", 2, 1) >>, << I("A", 3, "expl", 0, 0) >> }
+\* spent outputs that are themselves half-blinded: value committed under the unblinded generator, or explicit value under a blinded generator
+HalfIns == { << I("A", 3, "value", 0, 3) >>, << I("A", 3, "asset", 4, 0) >>, << I("A", 2, "value", 0, 2), I("A", 2, "full", 1, 1) >> }
 \* Transaction::blind: every marked output fully blinded.  The plain issuance shapes go with every input set; the token /
 \* blinded-issuance shapes with the single-input sets (quick: at most two marked outputs)
-SkFull == Build(InsSets, PlainIss)
+SkFull == Build(InsSets, PlainIss) \cup { sk \in Build(HalfIns, { NoIss }) : Tier # "quick" \/ NMarked(sk) <= 2 }
           \cup { sk \in Build(SmallIns, IssSet \ PlainIss) : Tier # "quick" \/ NMarked(sk) <= 2 }
 \* hand-blinded: exactly one marked output in a partial mode (the last marked one must commit its value)
 MaxOf(m) == CHOOSE k \in m : \A j \in m : j <= k
